@@ -627,7 +627,10 @@ template <typename T, typename F>
 static void default_init_probe(Out& impl, F&& observe)
 {
     alignas(alignof(T) > 16 ? alignof(T) : 16) unsigned char storage[sizeof(T) + 16];
+#if !defined(C02_VG)   // variant vg runs under valgrind memcheck: the storage stays UNDEFINED there, so that a read of a
+                       // member without initialiser is reported by memcheck instead of being made deterministic
     std::memset(storage, 0xFF, sizeof storage);
+#endif
     T* p = ::new (static_cast<void*>(storage)) T;   // default-initialisation: no () and no {}
     impl.tok("ok");
     observe(impl, *p);
